@@ -196,6 +196,11 @@ def t_rollback_commit(ex):
 
 
 # -------------------------------------------------------- bounded stand-in ----
+def _room(fails, flagged):
+    n = sum(1 for f in fails if bool(f["model"].get("disables_absent_flag")) == bool(flagged))
+    return n < (2 if flagged else 6)
+
+
 def enum_histories(seed):
     import random
     from pkgcore.package.conditionals import make_wrapper
@@ -214,6 +219,7 @@ def enum_histories(seed):
         w = W(Raw(), initial_settings=rnd.sample("abc", rnd.randint(0, 2)), unchangable_settings=["locked"])
         marks = [w.changes_count()]
         hist = []
+        absent_disabled = False
         for _ in range(rnd.randint(2, 7)):
             op = rnd.choice(ops)
             hist.append(op)
@@ -229,18 +235,20 @@ def enum_histories(seed):
                 marks = [w.changes_count()]
             else:
                 kind, *flags = op.split()
+                if kind == "dis" and any(f not in w.use for f in flags):
+                    absent_disabled = True   # input feature of known finding KF-C14-1
                 try:
                     r = (w.request_enable if kind == "en" else w.request_disable)("use", *flags)
                 except KeyError:
                     hist.pop()
                     continue   # disabling a flag that is not set: outside the callers' precondition
-                if r is False and set(w.use) != before and len(fails) < 4:
-                    fails.append({"model": {"history": list(hist)}, "detail": f"history {hist}: refused request changed the USE set {sorted(before)} -> {sorted(w.use)}"})
+                if r is False and set(w.use) != before and _room(fails, absent_disabled):
+                    fails.append({"model": {"history": list(hist), "disables_absent_flag": absent_disabled}, "detail": f"history {hist}: refused request changed the USE set {sorted(before)} -> {sorted(w.use)}"})
                 marks.append(w.changes_count())
             cases += 1
             want = tuple(sorted(f for f in "abc" if f in w.use))
-            if w.depend != want and len(fails) < 4:
-                fails.append({"model": {"history": list(hist)}, "detail": f"history {hist}: depend reads {w.depend} but USE is {sorted(w.use)} (expected {want})"})
+            if w.depend != want and _room(fails, absent_disabled):
+                fails.append({"model": {"history": list(hist), "disables_absent_flag": absent_disabled}, "detail": f"history {hist}: depend reads {w.depend} but USE is {sorted(w.use)} (expected {want})"})
     return {"name": "C14.PackageWrapper.bounded_enumeration", "bound": "600 random histories of <= 7 enable/disable/rollback/commit/read steps over 3 flags, attribute read after every step",
             "cases": cases, "failures": fails}
 
@@ -255,3 +263,4 @@ def tasks():
 
 
 REPLAY = {}
+WITNESSES = {"disables_absent_flag": lambda m: bool(m.get("disables_absent_flag"))}
